@@ -70,6 +70,7 @@ type Instance struct {
 	cacheEpoch int
 	cacheSnap  []byte
 	slow       bool
+	creator    bool
 }
 
 func (in *Instance) config(inc int) *ctlog.Config {
